@@ -22,6 +22,7 @@ import (
 	"github.com/canopy-network/canopy/fsm"
 	"github.com/canopy-network/canopy/lib"
 
+	"verifharness/bftworld"
 	"verifharness/env"
 	"verifharness/mc"
 )
@@ -49,6 +50,12 @@ func realAdoption(r *mc.Run, cov map[string]any) {
 			}
 		}
 	}
+	nv, no := bftworld.NextHeightStart()
+	for _, v := range nv {
+		r.OnViol(v)
+	}
+	cov["next_height_start"] = no
+	fmt.Printf("part 4 (real BFT.Start loop, start of the next height): %v\n", no)
 	cov["real_controller_lock_adoption_cases"] = cases
 	cov["real_controller_lock_adoption_outcomes"] = outcomes
 	fmt.Printf("part 3 (real controller, lock adoption): %d cases, outcomes %v\n", cases, outcomes)
